@@ -24,7 +24,7 @@ func (e *Engine) rootsAtCall(v ssa.Value, names ...string) bool {
 }
 
 func runC15(e *Engine, r *Report, tier string) {
-	r.Explanation = "C15, structural clauses. Decided: R1 in the deposit routine the coins moved to the governance module account, the increment of Proposal.TotalDeposit and the amount of the created/updated Deposit record are the same parameter, and both the proposal and the deposit record are written on every success path after the transfer; R2 for an ended proposal in the deposit-period queue every success path of the end-block callback runs exactly one of refund / burn (they lie on exclusive branches); for an ended proposal in the voting queue every success path runs refund, burn or the expedited re-queue; the unsupported-proposal path refunds; R3 voting is activated only under `status == deposit period` and `TotalDeposit.IsAllGTE(m)` with m the result of the per-message-type minimum, which returns the default for a non-community-pool-spend first message and never less than the default; R4 the voting end time uses the per-type period getter and the tally compares against the per-type quorum getter; R5 the same-type check on the proposal's messages precedes proposal creation; R6 passed messages apply all or nothing (decided by C18.R1b at the gov site); R7 a message type URL in x/gov is never computed by applying sdk.MsgTypeURL to the packed *codectypes.Any (which always yields /google.protobuf.Any, so that no per-type parameter would ever be found). Not decided: arithmetic of ratios, histories over several proposals."
+	r.Explanation = "C15, structural clauses. Decided: R1 in the deposit routine the coins moved to the governance module account, the increment of Proposal.TotalDeposit and the amount of the created/updated Deposit record are the same parameter, and both the proposal and the deposit record are written on every success path after the transfer; R2 for an ended proposal in the deposit-period queue every success path of the end-block callback runs exactly one of refund / burn (they lie on exclusive branches); for an ended proposal in the voting queue every success path runs refund, burn or the expedited re-queue; the unsupported-proposal path refunds; R3 voting is activated only under `status == deposit period` and `TotalDeposit.IsAllGTE(m)` with m the result of the per-message-type minimum, which returns the default for a non-community-pool-spend first message and never less than the default; R4 the voting end time uses the per-type period getter and the tally compares against the per-type quorum getter; R5 the same-type check on the proposal's messages precedes proposal creation; R6 passed messages apply all or nothing (decided by C18.R1b at the gov site); R7 a message type URL in x/gov is never computed by applying sdk.MsgTypeURL to the packed *codectypes.Any (which always yields /google.protobuf.Any, so that no per-type parameter would ever be found); R8 MsgDeposit and MsgSubmitProposal are handled by methods fx-core's msg server defines itself, each reaches fx-core's AddDeposit, and nothing in x/gov forwards them to the embedded SDK msg server (Go embedding does not dispatch back to the overriding keeper). Not decided: arithmetic of ratios, histories over several proposals."
 	r.Rule("R1", "deposit: transferred amount = TotalDeposit increment = Deposit record amount; both records written", 4, "")
 	r.Rule("R2", "each ended proposal's deposits are refunded or burned exactly once (or re-queued when expedited fails)", 3, "gov end-block callbacks")
 	r.Rule("R3", "voting activated only at the per-message-type minimum", 3, "")
@@ -38,6 +38,62 @@ func runC15(e *Engine, r *Report, tier string) {
 	for _, o := range sub18.Obls {
 		if strings.HasPrefix(o.Construct, "x/gov.") && strings.HasPrefix(o.Rule, "R1") {
 			r.add("R6", o.Rule+" "+o.Construct, o.Status, o.Pos, o.Detail)
+		}
+	}
+
+	// ---------- R8: the deposit / submit messages go through fx-core's own deposit routine ----------
+	// fx-core's gov keeper embeds the SDK keeper and overrides AddDeposit (per-type minimum, per-type voting period). Go
+	// embedding has no virtual dispatch: the embedded SDK msg server calls the SDK's AddDeposit. The two messages that can add
+	// a deposit must therefore be handled by fx-core's own methods, reach fx-core's AddDeposit, and never forward to the
+	// embedded server's Deposit / SubmitProposal.
+	r.Rule("R8", "MsgDeposit / MsgSubmitProposal are handled by fx-core's own handlers, which reach fx-core's AddDeposit and do not forward to the embedded SDK msg server", 3, "deposit-adding gov messages")
+	{
+		var fxAdd *ssa.Function
+		for _, fn := range e.Funcs {
+			if fn.Name() == "AddDeposit" && strings.HasSuffix(fnPkgPath(fn), "x/gov/keeper") && fn.Parent() == nil {
+				fxAdd = fn
+			}
+		}
+		if fxAdd == nil {
+			r.Fail("R8", "AddDeposit", "", "UNRESOLVED-ANCHOR: fx-core gov keeper has no AddDeposit")
+		}
+		for _, mname := range []string{"Deposit", "SubmitProposal"} {
+			var own *ssa.Function
+			for _, fn := range e.Funcs {
+				if fn.Name() == mname && fn.Parent() == nil && fn.Synthetic == "" && strings.HasSuffix(fnPkgPath(fn), "x/gov/keeper") && fn.Signature.Recv() != nil && strings.HasSuffix(fn.Signature.Recv().Type().String(), "msgServer") {
+					own = fn
+				}
+			}
+			ck := "x/gov/keeper.msgServer." + mname
+			if own == nil {
+				r.Fail("R8", ck, "", "fx-core's msg server does not define "+mname+" itself: the method promoted from the embedded SDK msg server runs the SDK's deposit routine, without the per-message-type minimum deposit and voting period")
+				continue
+			}
+			if fxAdd != nil {
+				reach := e.Reach([]*ssa.Function{own}, nil)
+				r.Check(reach[fxAdd], "R8", ck+" reaches AddDeposit", e.Pos(own.Pos()), "reaches fx-core's AddDeposit", mname+" does not reach fx-core's own AddDeposit: the per-message-type minimum deposit and voting period are bypassed")
+			}
+		}
+		// no forwarding to the embedded server for these two methods, anywhere in fx-core's gov code
+		nfw := 0
+		for _, fn := range e.Funcs {
+			if isAuxPkg(fnPkgPath(fn)) || !strings.Contains(fnPkgPath(fn), "x/gov") {
+				continue
+			}
+			allCalls(fn, func(c ssa.CallInstruction) {
+				com := c.Common()
+				if !com.IsInvoke() || (com.Method.Name() != "Deposit" && com.Method.Name() != "SubmitProposal") {
+					return
+				}
+				if !strings.HasSuffix(com.Value.Type().String(), "MsgServer") {
+					return
+				}
+				nfw++
+				r.Fail("R8", e.CanonFnKey(fn)+" forwards "+com.Method.Name(), e.InstrPos(c), "the message is forwarded to the embedded SDK msg server, whose "+com.Method.Name()+" calls the SDK keeper's AddDeposit / ActivateVotingPeriod: fx-core's per-message-type minimum deposit and voting period are bypassed")
+			})
+		}
+		if nfw == 0 {
+			r.Ok("R8", "no forwarding", "", "no call of Deposit / SubmitProposal on an embedded gov MsgServer in x/gov")
 		}
 	}
 
